@@ -1333,6 +1333,43 @@ func c13Stalled(r *gen.Rng, o *out.W) {
 	o.Sample(fmt.Sprintf("stalled takeover script, %d lines", len(w.trace)))
 }
 
+// a takeover while the old connection's dequeuer is held up between two deliveries and more traffic for the session is
+// queued: whatever the old dequeuer still takes from the queue while it is being closed must end up with the newcomer
+func c13StalledBacklog(r *gen.Rng, o *out.W) {
+	nextNoModel = true // the model has no dequeuer that is parked in mid-delivery: monitors only
+	w := newWorld(o, "C13", 2+r.Intn(3), 100, nil)
+	w.concurrent = false // (the peers still act one at a time)
+	pub := w.Conn()
+	w.Connect(pub, "PUB", true, nil, 0, "", "")
+	old := w.Conn()
+	w.Connect(old, "V", false, nil, 0, "", "")
+	w.Subscribe(old, packet.Subscription{Topic: "t", QOS: packet.QOS(1 + r.Intn(2))})
+	if r.Bool() {
+		w.StallAt(old, broker.MessageForwarded) // the first delivery goes out, then its dequeuer is held up
+	} else {
+		w.Stall(old)
+	}
+	for i, n := 0, 2+r.Intn(3); i < n; i++ {
+		w.Publish(pub, "t", packet.QOS(1+r.Intn(2)), false, false)
+		if len(w.peers[pub].open2) > 0 {
+			w.Release(pub)
+		}
+	}
+	c := w.Conn()
+	w.Connect(c, "V", false, nil, 0, "", "") // refused after the kill timeout, or accepted: the old one is closed either way
+	w.Unstall(old)
+	if !w.alive(c) || !w.peers[c].connected {
+		c = w.Conn()
+		w.Connect(c, "V", false, nil, 0, "", "")
+	}
+	if w.alive(c) {
+		w.AckAll(c)
+	}
+	w.finish()
+	o.Distinct(strings.Join(w.trace, "\n"))
+	o.Sample(fmt.Sprintf("stalled takeover with backlog, %d lines", len(w.trace)))
+}
+
 // resume with several unacknowledged messages (C15: retransmission order)
 func c15Resume(r *gen.Rng, o *out.W) {
 	win := 4 + r.Intn(7)
@@ -1440,6 +1477,7 @@ func TestHarness(t *testing.T) {
 		sc("C13 takeover", c13Script)
 		sc("C13 concurrent storm", func(r *gen.Rng, o *out.W) { concStorm(r, o, "C13") })
 		sc("C13 stalled takeover", c13Stalled)
+		sc("C13 stalled takeover with backlog", c13StalledBacklog)
 	case "C14":
 		rs("C14 hostile", func() profile {
 			return profile{window: 2 + r.Intn(4), queue: 100, clients: 2 + r.Intn(4), steps: 30 + r.Intn(40), wSub: 4, wUnsub: 1, wPub: 8, wAck: 4, wDrop: 3, wRecon: 4, wRelease: 1, wPing: 1, wBad: 6, wFail: 3, retain: 20, wills: true, qos: all, multiFilter: true}
